@@ -453,7 +453,7 @@ def gen(rng, tier):
     # scalars: every special value in every number mode (ties Dtoa.fmtG / Strtod to glibc)
     for b in SPECIAL_D:
         cases.append(["enc %d d%016x" % (m, b) for m in (8, 10, 40, 42)] + ["rt 8 d%016x" % b, "rt 0 d%016x" % b])
-    for i in range((150 if quick else 4000)):
+    for i in range((150 if quick else 60000)):
         d = gen_double(rng)
         f = gen_float(rng)
         cases.append(["enc %d d%016x" % (m, d[1]) for m in (8, 10)] + ["rt 8 d%016x" % d[1]] +
@@ -466,7 +466,7 @@ def gen(rng, tier):
         ops = ["enc 8 s%s" % hexs(s), "rt 8 s%s" % hexs(s), "rt 0 s%s" % hexs(s), "rt 9 o1 %s i1" % hexs(s + b"k"), "rt 8 a2 s%s s%s" % (hexs(s + s), hexs(b"x" + s))]
         cases.append(ops)
     # type-directed trees
-    for i in range((300 if quick else 7000)):
+    for i in range((300 if quick else 80000)):
         opts = {"utf8": rng.random() < 0.8, "ident_keys": rng.random() < 0.5, "reals": rng.random() < 0.85}
         tree = gen_tree(rng, 0, rng.choice([1, 2, 3, 4, 6, 8]), opts)
         if len(tokens(tree)) > 3000:
@@ -522,16 +522,31 @@ def distribution(cases):
             t = l.split()
             ops[t[0]] = ops.get(t[0], 0) + 1
             modes[t[1]] = modes.get(t[1], 0) + 1
-        for tok in c[0].split()[2:]:
-            k = tok[0]
-            kinds[k] = kinds.get(k, 0) + 1
-            if k == "s":
+        try:
+            tree, _ = parse_tokens(c[0].split(), 2)
+        except Exception:
+            continue
+        stack = [tree]
+        while stack:
+            t = stack.pop()
+            kinds[t[0]] = kinds.get(t[0], 0) + 1
+            strs = []
+            if t[0] == "s":
+                strs.append(t[1])
+            elif t[0] == "a":
+                stack.extend(t[1])
+            elif t[0] == "r":
+                stack.append(t[2])
+            elif t[0] == "o":
+                for k, v in t[1]:
+                    strs.append(k)
+                    stack.append(v)
+            for b in strs:
                 strings += 1
-                b = unhex(tok[1:]) if len(tok) > 1 else b""
                 if any(ch < 0x20 or ch in (34, 92, 47, 0x7f) or ch >= 0x80 for ch in b):
                     spicy += 1
     return {"ops_by_kind": ops, "ops_by_mode": modes, "node_kinds(first op of each case)": kinds,
-            "strings_with_control/quote/backslash/slash/del/high_bytes": "%d of %d" % (spicy, strings)}
+            "strings_and_keys_with_control/quote/backslash/slash/del/high_bytes": "%d of %d" % (spicy, strings)}
 
 
 EXHAUSTIVE = {"quick": "all 255 single-byte strings/keys; every pad length so that the 16382-byte read boundary and the 16000-byte flush "
@@ -545,14 +560,15 @@ LEVEL_TEXT = ("Proved in Lean 4 for ALL Var trees (any depth/size; 32-bit ints; 
               "clause), string_escaping_exact, int_lexeme_exact (myitoa spells the int, INT_MIN included), json_roundtrip (decode(encode v) = the "
               "normalised denotation, both layouts; corollary of encode_in_rfc + C06 rfc_accept), roundtrip_int / roundtrip_scalars / "
               "roundtrip_object_members (what comes back), sink_concat / writer_refines (the 16000-byte flushing sink loses and duplicates nothing, "
-              "every mode incl. XDL), read_chunks (reading in 16382-byte chunks with BOM probe = decode of the content, any size), file_roundtrip. "
+              "every mode incl. XDL), read_chunks (reading in 16382-byte chunks with BOM probe = decode of the content, any size), file_roundtrip, "
+              "xdl_roundtrip_compact (Xdl::decode(Xdl::encode v) for identifier keys and class names: Y/N, name=value, Class{...}, compact layout). "
               "Number formatting enters as the hypothesis H1 (snprintf %.Pg prints an RFC number lexeme); the driver's instance (Dtoa.fmtG) is "
               "compared with glibc byte for byte on every run. The model is tied to the code by the correspondence check under ASan (encode bytes in "
               "8 modes, decode∘encode, write/read through files slid across the 16382/16000 boundaries) and python3 json parses every JSON-mode output.")
 LEVEL_NOTE = ("Partial: bit-exact recovery of doubles/floats is H2 (atof(%.17g x) = x, glibc) - kept as `def double_roundtrip_full`, exercised by K "
               "and the python oracle on every generated double/float (denormals, +-DBL_MAX, -0, powers of two +-1ulp, random bits), not proved. "
-              "XDL round trip (identifier keys, Y/N, class prefix, newline separators) is `def xdl_roundtrip_full`: validated by K + the python "
-              "expected-value oracle only (sink_concat and read_chunks do cover XDL). H1 is a hypothesis of the theorems, not proved for Dtoa.fmtG. "
+              "XDL round trip is proved for the compact layout only; the PRETTY layout (newline-separated members/items) is "
+              "`def xdl_roundtrip_pretty_full`: validated by K + the python expected-value oracle only (sink_concat and read_chunks do cover XDL). H1 is a hypothesis of the theorems, not proved for Dtoa.fmtG. "
               "Fixed in /repo for this property: 737b5bf (raw control characters), 88049f3 ('/' in quoted keys), a755d42 (found by this check: "
               "files of 1-2 bytes such as '5' or '[]' could not be read back), c9789c6 (C06: nesting limit). Not a defect as worded: -0.0 and "
               "integral doubles are written without fraction ('-0', '5') and come back as ints of the same numeric value; ints of 10+ characters "
